@@ -488,9 +488,11 @@ fn gen_word(rng: &mut Rng, tier: &str, n: usize, v: &mut Vec<Req>) {
     }
     const TEXT: &[&str] = &[
         "hello", "me", "myself", " ", "  ", ".", ",", "-", "_", "é", "€", "\u{1f600}", "\n", "me_", "_me", "1", "a", "b", "ab",
-        "me myself", "x*y", "?", "*", "ß", "ǆ", "", "\u{301}",
+        "me myself", "x*y", "?", "*", "ß", "ǆ", "", "\u{301}", "éab", "éa", "€bb", "a€a",
     ];
-    const PAT: &[&str] = &["me", "myself", "a", "b", "ab", " ", "_", "é", "€", "\u{1f600}", ".", "me ", " me", "1", "ß", "", "-"];
+    const PAT: &[&str] = &[
+        "me", "myself", "a", "b", "ab", " ", "_", "é", "€", "\u{1f600}", ".", "me ", " me", "1", "ß", "", "-", "éa", "€b", "a€",
+    ];
     for _ in 0..n {
         let t = piece_string(rng, TEXT, 7).to_lowercase();
         let p = piece_string(rng, PAT, 2).to_lowercase();
